@@ -655,6 +655,65 @@ mod verif_deflate_core {
         kani::assume(d.params.flags & TDEFL_FORCE_ALL_RAW_BLOCKS == 0);
         flush_block_markers_body(&mut d, TDEFLFlush::Finish, kani::any(), kani::any());
     }
+    // ------------------------------------------------------------------
+    // flush_block's stored-block BODY: the real flush_block (real put_bits / pad_to_bytes / write_bytes / flush_output)
+    // on a forced-raw compressor whose pending block of `len` bytes starts at window index `start`. The window is laid
+    // out the way the engines leave it: byte i of the block at index (start+i) & MASK, and the first MAX_MATCH_LEN-1
+    // (257) window bytes mirrored behind the window end; the mirror slot 32768+257 is never written by any engine and
+    // keeps its allocation value. Contract from C01/C10: the block is 00 + pad, LEN, ~LEN, then exactly the block's
+    // bytes in order -- also when it straddles the window end by any amount.
+    // ------------------------------------------------------------------
+    fn stored_pat(i: usize) -> u8 { ((i as u8).wrapping_mul(7).wrapping_add(3)) | 1 }
+    fn stored_body_case(start: usize, len: usize) {
+        let mut d = CompressorOxide::with_params(DataFormat::Raw, 0, CompressionStrategy::Default, 15);
+        concrete_window!(d.dict);
+        let mut i = 0;
+        while i < len {
+            let idx = (start + i) & LZ_DICT_SIZE_MASK;
+            d.dict.b.dict[idx] = stored_pat(i);
+            if idx < MAX_MATCH_LEN - 1 { d.dict.b.dict[LZ_DICT_SIZE + idx] = stored_pat(i); }
+            i += 1;
+        }
+        let base = 3 * 65536usize; // stream positions are unmasked
+        d.dict.code_buf_dict_pos = base + start;
+        d.dict.lookahead_pos = base + start + len;
+        d.dict.lookahead_size = 0;
+        d.dict.size = LZ_DICT_SIZE;
+        d.lz.total_bytes = len as u32;
+        d.params.block_index = 1;
+        let inb = [0u8; 1];
+        let mut outb = [0xAAu8; 320];
+        let r;
+        {
+            let mut cb = CallbackOxide::new_callback_buf(&inb[..0], &mut outb[..]);
+            r = flush_block(&mut d, &mut cb, TDEFLFlush::None);
+        }
+        assert!(matches!(r, Ok(0)), "OBL:storedbody.ok_and_drained_when_room [C02]");
+        assert!(outb[0] == 0 && outb[1] == (len & 0xFF) as u8 && outb[2] == (len >> 8) as u8 && outb[3] == !outb[1] && outb[4] == !outb[2],
+            "OBL:storedbody.header_is_type00_len_nlen [C10]");
+        // concrete indices throughout: every comparison folds during symbolic execution
+        let mut k = 0;
+        while k < 320 - 5 {
+            if k < len {
+                assert!(outb[5 + k] == stored_pat(k), "OBL:storedbody.block_bytes_are_the_window_bytes_in_order_across_the_window_end [C01 C02 C10]");
+            } else {
+                assert!(outb[5 + k] == 0xAA, "OBL:storedbody.nothing_emitted_past_the_block [C02 C08]");
+            }
+            k += 1;
+        }
+        assert!(d.lz.total_bytes == 0 && d.params.saved_bits_in == 0, "OBL:storedbody.lz_buffer_reset_and_byte_aligned [C02]");
+    }
+    #[kani::proof]
+    #[kani::unwind(320)]
+    fn k_flush_block_stored_body_wrap() {
+        stored_body_case(LZ_DICT_SIZE - 2, 260);  // spills exactly MAX_MATCH_LEN bytes past the window end
+    }
+    #[kani::proof]
+    #[kani::unwind(320)]
+    fn k_flush_block_stored_body_short_spill() {
+        stored_body_case(LZ_DICT_SIZE - 7, 33);
+    }
+
     /// reverse the low n bits of v
     fn rev_bits(v: u32, n: u32) -> u32 { let mut r = 0; let mut i = 0; while i < 16 { if i < n && (v >> i) & 1 == 1 { r |= 1 << (n - 1 - i); } i += 1; } r }
     /// RFC 1951 §3.2.6 fixed code, MSB-first code value
